@@ -56,6 +56,11 @@ func lnRoutes() []map[string]any {
 		// deadline is armed again for that), then fall-through; the consumer reads after the matching timeout has passed
 		{"match": []map[string]any{vhm(4, "Y", "eatlate")}, "handle": []map[string]any{{"handler": "verif_h", "k": "mark", "l": 1, "r": 6}, {"handler": "verif_h", "k": "eat", "n": eatN}}},
 		{"match": []map[string]any{vhm(eatN+8, "N", "eatlate")}, "handle": []map[string]any{{"handler": "verif_h", "k": "term"}}},
+		// "wrapfall": a matched route whose handler wraps the connection while prefetched bytes are still unread (as tls,
+		// proxy_protocol, tee do), then a route that needs more data before it says no - the wrapped connection prefetches
+		// through a pooled scratch chunk - then fall-through: the consumer reads the whole stream
+		{"match": []map[string]any{vhm(4, "Y", "wrapfall")}, "handle": []map[string]any{{"handler": "verif_h", "k": "mark", "l": 1, "r": 7}, {"handler": "verif_h", "k": "wrap"}}},
+		{"match": []map[string]any{vhm(40, "N", "wrapfall")}, "handle": []map[string]any{{"handler": "verif_h", "k": "term"}}},
 		// a non-terminal handler eats a prefix, then the connection falls through
 		{"match": []map[string]any{vhm(4, "Y", "eatfall")}, "handle": []map[string]any{{"handler": "verif_h", "k": "mark", "l": 1, "r": 3}, {"handler": "verif_h", "k": "eat", "n": eatN}}},
 		// never decided: matching fails when the client's stream ends
@@ -113,6 +118,9 @@ func runListener(sc lnScen, idx int, seed int64) (*lnTrace, error) {
 		if (kind == "term" || kind == "eatfall" || kind == "tlsfall" || kind == "hold") && slen < 16 {
 			slen = 16
 		}
+		if kind == "wrapfall" && slen < 300 {
+			slen = 300
+		}
 		if kind == "eatlate" && slen < 300 {
 			slen = 300
 		}
@@ -165,6 +173,9 @@ func runListener(sc lnScen, idx int, seed int64) (*lnTrace, error) {
 			scn.EndKind = "hold"
 			held = append(held, scn)
 		}
+		if kind == "wrapfall" {
+			scn.Pulls = []int{10, 100} // the second route sees 10 of the 40 bytes it wants when the handler has wrapped
+		}
 		if kind == "eatlate" {
 			scn.Pulls = []int{10, 30} // the second route sees 4 of the 8 bytes it wants after the first round
 		}
@@ -181,6 +192,9 @@ func runListener(sc lnScen, idx int, seed int64) (*lnTrace, error) {
 		}
 		if k == "tlsfall" {
 			k, isTLS = "fall", true
+		}
+		if k == "wrapfall" {
+			k = "fall"
 		}
 		if k == "fall" && ci.slen < 8 {
 			k = "rej" // the stream ends before the 8 bytes the first route asks for: matching fails
